@@ -15,10 +15,10 @@
    not starting with '<' (none of these is constrained by [cfg_ok]).
 
    Domain [flat_ok x xs] (decidable):
-     configuration: formatter syntax is not haml/slim/pug (the HTML formatter runs), JSX off, no
-       wrapped text (`text` is None), comments off, indent and newline+baseIndent strings do not
+     configuration: formatter syntax is not haml/slim/pug (the HTML formatter runs), no wrapped
+       text (`text` is None), comments off, indent and newline+baseIndent strings do not
        start with '<', attribute-name / value-prefix tables free of '<'
-       (snippet table, variables, maxRepeat, context, case, quotes ... arbitrary);
+       (snippet table, variables, maxRepeat, JSX on or off, context, case, quotes ... arbitrary);
      names: letters only, not the key of a non-empty snippet definition, not matching the `lorem`
        pattern.  No side condition about `label`/`input`/`textarea` is needed: the label addon only
        removes attributes, and these elements have none. *)
@@ -82,7 +82,7 @@ Print Assumptions C01_expand_tree_groups.
 Theorem C01_expand_tree :
   forall (x : xconfig) (s : str) (toks : list token) (root : list tnode),
     cfg_ok x = true ->
-    tokenize s = TOk toks -> parse false toks = POk root ->
+    tokenize s = TOk toks -> parse (mc_jsx (xc_m x)) toks = POk root ->
     forallb (named (name_fine x)) root = true ->
     (total_list root <= budget_of (mc_max_repeat (xc_m x)))%Z ->
     exists st,
@@ -161,4 +161,15 @@ Example C01_expand_groups_nonvacuous :
   end /\
   (* `>` directly after a group is outside the domain *)
   grp_ok (mkX ex_m (ex_o true "html")) [(UG [(UE (S "x") None, SSibling)] None, SChild); (UE (S "zz") None, SSibling)] = false.
+Proof. vm_compute. repeat split; reflexivity. Qed.
+
+(* non-vacuity with the JSX option on and capitalised names: "Foo>Bar+zz" *)
+Definition ex_mj : mconfig := mkMConfig (S "jsx") markup_snippets [] WNone None None true None [] false false.
+Example C01_expand_jsx_nonvacuous :
+  let xs := [(S "Foo", SChild); (S "Bar", SSibling); (S "zz", SSibling)] in
+  flat_ok (mkX ex_mj (ex_o true "xhtml")) xs = true /\
+  match expand_markup (mkX ex_mj (ex_o true "xhtml")) (render xs) with
+  | Ok st => nestT 0 (tags st) = [(0, S "Foo"); (1, S "Bar"); (1, S "zz")]
+  | _ => False
+  end.
 Proof. vm_compute. repeat split; reflexivity. Qed.
